@@ -14,6 +14,7 @@
 -/
 import NemoVerif.Models.CoreVM
 import NemoVerif.Models.SlideGraph
+import NemoVerif.Models.RoundMachine
 
 namespace NemoVerif.CoreVM
 open NemoVerif NemoVerif.CoreIndex
@@ -101,5 +102,71 @@ def LandsR {α : Type} (k : Key) (cfg : FlowCfg) (hd : Head) (T : α → Nat →
 /-- `LandsR` for every state in which head `k` has data `hd` and the flow's config is `cfg` -/
 structure Lands {α : Type} (k : Key) (cfg : FlowCfg) (hd : Head) (T : α → Nat → Prop) (x : M α) : Prop where
   run : ∀ s, cfgOf s.r k.1 = some cfg → headOf s k = some hd → LandsR k cfg hd T (x s)
+
+/-! ### the token level (`RoundMachine`): simple elements, the global effect of their step, the token abstraction -/
+
+open NemoVerif.RoundMachine
+
+/-- `Frame` plus: the queue of internal events is unchanged -/
+structure FrameQ (s s' : VM) : Prop where
+  ixs : s'.ixs = s.ixs
+  prog : s'.r.prog = s.r.prog
+  ids : fxIds s'.r.fx = fxIds s.r.fx
+  queue : s'.r.queue = s.r.queue
+
+/-- `x` changes neither what `Keeps` protects nor the queue of internal events -/
+structure KeepsQ {α : Type} (x : M α) : Prop where
+  frame : ∀ s, FrameQ s (resSt (x s))
+
+/-- element kinds whose `slideStep` only evaluates, writes contexts / head extras, and moves the head: no internal event
+    is pushed, no other head or instance is touched -/
+def Prim.simple : Prim → Bool
+  | .assign _ _ | .log _ | .print _ | .glob _ | .other | .goto _ _ | .brk _ | .cont _ => true
+  | .priority _ | .beginScope _ | .catchFail _ | .ret _ | .newAction _ => true
+  | .label n => n != "start_new_flow_instance"
+  | _ => false
+
+/-- what such a step does to the state, as far as the token abstraction can see: only the position (and ghost `elem`)
+    of head `k` changes -/
+structure Moved (k : Key) (hd : Head) (p : Nat) (s s' : VM) : Prop where
+  prog : s'.r.prog = s.r.prog
+  ids : fxIds s'.r.fx = fxIds s.r.fx
+  queue : s'.r.queue = s.r.queue
+  insts : (s'.ixs.ix.insts = s.ixs.ix.insts ∧ hd.pos = p) ∨
+    ∃ nm, s'.ixs.ix.insts = s.ixs.ix.insts.map fun i =>
+      if i.uid = k.1 then i.modifyHead k.2 (fun x => { x with pos := p, elem := nm }) else i
+
+/-- every normal return of `x` is "loop goes on, no new heads" after a pure move of head `k` to a position in `P` -/
+structure SimpleMove (k : Key) (hd : Head) (P : Nat → Prop) (x : M (Bool × List Key)) : Prop where
+  run : ∀ s b s', headOf s k = some hd → x s = .ok b s' → b = (false, []) ∧ ∃ p, P p ∧ Moved k hd p s s'
+
+/-- sliding elements that `RoundMachine.headOutcomes` treats by its default rule "follow an edge, push `emit`" -/
+def plainElem : SlideGraph.Elem → Bool
+  | .step _ | .goto _ | .jump _ | .ret | .catchPush _ | .catchPop => true
+  | _ => false
+
+/-- kind of a queued internal event (`idx` numbers the flows of the `RProg`) -/
+def evKindOf (idx : String → Option Nat) (e : Event) : EvKind :=
+  if e.ev.name = "StartFlow" then
+    match lookupArg "flow_id" e.ev.args with
+    | some (.str g) => (match idx g with | some n => .start n | none => .plain)
+    | _ => .plain
+  else if e.ev.name = "UnhandledEvent" then .unhandled
+  else .plain
+
+def headToken (n : Nat) (b : Bool) (hd : Head) : Option Token :=
+  if hd.status ≠ .inactive then some (Token.head n hd.pos b) else none
+
+/-- tokens of one instance: every head that is not INACTIVE, when the instance listens and its flow is in the `RProg` -/
+def instTokens (idx : String → Option Nat) (ids : List (FUid × String)) (i : Inst) : List Token :=
+  if i.status.listening then
+    match (OMap.lookup i.uid ids).bind idx with
+    | some n => i.heads.filterMap (headToken n (decide (i.status = .started)))
+    | none => []
+  else []
+
+/-- the token multiset (as a list) that represents a CoreVM state inside a round -/
+def absTokens (idx : String → Option Nat) (s : VM) : List Token :=
+  s.r.queue.map (fun e => Token.ev (evKindOf idx e)) ++ s.ixs.ix.insts.flatMap (instTokens idx (fxIds s.r.fx))
 
 end NemoVerif.CoreVM
